@@ -73,9 +73,11 @@ def detect(sid, tier="quick", check=None):
     return rc
 
 
-def matrix(tier="quick"):
-    """every seeded change against the check of its property, in a scratch clone of /repo (so /repo stays usable meanwhile)"""
-    clone = "/tmp/verif-matrix-repo"
+def matrix(tier="quick", only=None, tag=""):
+    """every seeded change against the check of its property, in a scratch clone of /repo (so /repo stays usable meanwhile);
+    `only`: comma-separated property ids (several streams can run side by side), `tag`: suffix of the results file"""
+    clone = "/tmp/verif-matrix-repo" + tag
+    only = set(only.split(",")) if only else None
     sh("rm -rf %s && git clone -q /repo %s" % (clone, clone))
     res = {}
     try:
@@ -84,6 +86,8 @@ def matrix(tier="quick"):
             if not os.path.isdir(d) or not os.path.exists(d + "/patch.diff"):
                 continue
             pid = json.load(open(d + "/meta.json"))["property"]
+            if only and pid not in only:
+                continue
             rc, o = sh("git -C %s apply %s/patch.diff" % (clone, d))
             if rc != 0:
                 res[sid] = {"property": pid, "applies": False}
@@ -96,7 +100,7 @@ def matrix(tier="quick"):
             print(sid, res[sid]["exit"], res[sid]["wall_s"], flush=True)
     finally:
         sh("rm -rf " + clone)
-    json.dump(res, open(os.path.join(V, "seeded", "RESULTS-%s.json" % tier), "w"), indent=1)
+    json.dump(res, open(os.path.join(V, "seeded", "RESULTS-%s%s.json" % (tier, tag)), "w"), indent=1)
     print("detected %d of %d" % (sum(1 for r in res.values() if r.get("detected")), len(res)))
 
 
